@@ -29,7 +29,7 @@ SOFT = {3: 'the model returned None on an implementation state', 8: 'the model\'
         11: 'state outside the modelled fragment', 14: 'the cell algebra tables computed by the harness are inconsistent'}
 TRUSTED = ['lxml parse/serialise; lxml tag and attribute edits on one cell (the cell algebra: covered tag on/off, the two span attributes set/deleted), assumed to satisfy Transformspec.alg_cell_ok / C17 alg_ok (checked by Coq on every span call)',
            'Cell.get_value on a detached cell (once per distinct cell content, to learn its Python value for the get_values() comparison)',
-           'the csv module (writer/reader/Sniffer, dialect excel): C17_csv_partial takes it as a Section variable',
+           'the csv module: writer and reader for the comma dialect are the executable model Csv.v (C17_csv_dialect_roundtrip), validated against the csv module of the running CPython on every run (Csvchk.chk_csvmodel: written texts and random texts); csv.Sniffer is not modelled: that it finds the comma dialect is tested per case by calling it',
            'Grid.v / Transformspec.v as the meaning of "matrix", "rectangular closure", "trailing", "covers exactly"']
 MODELLED = ('table.py: transpose() and transpose(coord), rstrip, optimize_width + _optimize_width_trim_rows/_length/_rstrip_rows/_adapt_columns, set_span(area, merge), '
             'del_span, get_cell(keep_repeated=False), get_cells(area), set_cells(clone=False), to_csv / import_from_csv / _get_python_value (value level); '
@@ -61,7 +61,7 @@ def drive(jobs, fn, procs=16):
 
 
 def plan(tier, rng):
-    n = 2400 if tier == 'quick' else 26000
+    n = 2400 if tier == 'quick' else 22000
     maxw, maxh = (7, 7) if tier == 'quick' else (10, 10)
     return [(rng.getrandbits(48), KINDS[i % len(KINDS)], rng.randint(1, 3 if tier == 'quick' else 5), maxw, maxh) for i in range(n)]
 
@@ -150,7 +150,7 @@ def run(tier, seed, replay=None):
         import subprocess
         chk_proc = subprocess.Popen('timeout 1500 coqchk -silent -o -R theories "" C17', shell=True, cwd=common.COQ,
                                     stdout=subprocess.PIPE, stderr=subprocess.STDOUT, text=True)
-    corpus = [json.load(open(f))['case'] for f in sorted((common.ROOT / 'corpus' / PROP).glob('*.json'))]
+    corpus = [c['case'] for c in (json.load(open(f)) for f in sorted((common.ROOT / 'corpus' / PROP).glob('*.json'))) if 'case' in c]
     csv_part = None
     if replay:
         payload = json.load(open(replay))
@@ -266,7 +266,41 @@ def run(tier, seed, replay=None):
                                       'CSV: values in the stable domain (None, integers, True, short ASCII words without blanks), dialect excel, the Sniffer finds the comma'])
 
 
-CSV_VALUES = [None, None, None, 1, 2, 3, 12, -4, 'a', 'b', 'ab', 'x1', True, False, '']
+CSV_VALUES = [None, None, None, 1, 2, 3, 12, -4, 'a', 'b', 'ab', 'x1', True, False, '', 'a,b', 'say "x"', 'two\nlines', 'a\u2028b', 'n\x85l', 'a;b', 'é']
+CSV_ALPHABET = ['a', 'b', ' ', ',', '"', '\r', '\n', ';', '\u00a0', 'é', '\t', '\u2028']
+
+
+def csv_model_cases(tier, rng, texts):
+    """validation of the dialect model Csv.v against the csv module of this CPython: (matrix of fields | None, text, rows)"""
+    import csv, io
+    cl = lambda s_: '[%s]' % ';'.join(str(ord(c)) for c in s_)
+    rows_c = lambda rows: '[%s]' % ';'.join('[%s]' % ';'.join(cl(f) for f in r) for r in rows)
+    cases = []
+    for _ in range(1500 if tier == 'quick' else 20000):
+        m = [[''.join(rng.choice(CSV_ALPHABET) for _ in range(rng.choice([0, 0, 1, 1, 2, 3, 5]))) for _ in range(rng.choice([0, 1, 1, 2, 3]))]
+             for _ in range(rng.randint(0, 4))]
+        out = io.StringIO(newline=''); w = csv.writer(out, dialect='excel')
+        for r in m: w.writerow(r)
+        text = out.getvalue()
+        cases.append('((Some %s, %s, %s) : csvm_case)' % (rows_c(m), cl(text), rows_c(list(csv.reader(io.StringIO(text, newline=''))))))
+    for _ in range(1500 if tier == 'quick' else 20000):
+        text = ''.join(rng.choice(CSV_ALPHABET) for _ in range(rng.randint(0, 10)))
+        try:
+            rows = list(csv.reader(io.StringIO(text, newline='')))
+        except csv.Error:
+            continue
+        cases.append('((None, %s, %s) : csvm_case)' % (cl(text), rows_c(rows)))
+    for text in texts:       # the texts Table.to_csv produced in this run
+        try:
+            rows = list(csv.reader(io.StringIO(text, newline='')))
+        except csv.Error:
+            continue
+        cases.append('((None, %s, %s) : csvm_case)' % (cl(text), rows_c(rows)))
+    return cases
+
+
+CSVM_HEADER = 'Require Import Csv Csvchk.\nFrom Coq Require Import List NArith Bool Arith. Import ListNotations. Open Scope N_scope.\n'
+
 
 
 def g_csv_table(rng):
@@ -276,7 +310,10 @@ def g_csv_table(rng):
     for _ in range(h):
         cells = []
         for _ in range(rng.randint(0, w)):
-            cells.append([rng.choice((1, 1, 1, 2, 3)), rng.choice(CSV_VALUES), rng.choice([None, None, 's1']), None])
+            v = rng.choice(CSV_VALUES)
+            if isinstance(v, str):      # the value is pasted into an attribute and into text:p by tablelib.cell_xml
+                v = v.replace('&', '&amp;').replace('<', '&lt;').replace('"', '&quot;').replace('\n', '&#10;').replace('\r', '&#13;')
+            cells.append([rng.choice((1, 1, 1, 2, 3)), v, rng.choice([None, None, 's1']), None])
         while sum(c[0] for c in cells) > 7: cells.pop()
         rows.append([rng.choice([1, 1, 2, 3]), rng.choice([None, 'rs']), cells])
     width = max([sum(c[0] for c in r[2]) for r in rows] + [0]) + rng.choice([0, 0, 1])
@@ -294,7 +331,7 @@ def _csv_worker(init):
     except Exception as e:
         return None, 'initial table: %r' % (e,)
     pre = d.init_nodes
-    raised, post, text = None, [], None
+    raised, post, text, cls = None, [], None, 'other'
     try:
         text = tl.timed(d.table.to_csv)
     except Exception as e:
@@ -302,8 +339,13 @@ def _csv_worker(init):
     if text is not None:
         try:
             dia = csv.Sniffer().sniff(''.join(text.splitlines(True)[:100]))
-            if dia.delimiter != ',' or dia.quotechar != '"':
+            if dia.delimiter != ',' or dia.quotechar != '"' or dia.skipinitialspace:
                 return None, 'out-of-domain: sniffed delimiter %r' % dia.delimiter
+            # input classes of the two defects repaired by fixes/F123, F124 (only used to key a failure)
+            if any(ch in text for ch in '\u2028\u2029\x85\x0b\x0c\x1c\x1d\x1e'):
+                cls = 'line-separator-character'
+            elif not dia.doublequote and '""' in text:
+                cls = 'doubled-quote-at-line-end'
         except csv.Error as e:
             return None, 'out-of-domain: %s' % e
         try:
@@ -316,7 +358,7 @@ def _csv_worker(init):
     blank = d.cls_of.get(repr(''), -7)
     term = '(([%s], (%d), %s, %s, %s) : csv_case)' % (';'.join('(%d,%d)' % p for p in d.vtab()), blank, tl.c_xtable(pre), tl.c_xtable(post),
                                                     'true' if raised else 'false')
-    return term, dict(raised=raised, text=text, pre=pre, post=post)
+    return term, dict(raised=raised, text=text, pre=pre, post=post, cls=cls)
 
 
 def csv_check(tier, rng, odfdo, only=None):
@@ -337,16 +379,21 @@ def csv_check(tier, rng, odfdo, only=None):
     failures, seen = [], set()
     for k in sorted(bad):
         i = idx[k]; code = bad[k]
-        key = 'csv/%s' % ('raised' if code == 10 else 'values')
+        key = 'csv/%s' % ('raised' if code == 10 else 'values/' + outs[i][1].get('cls', 'other'))
         if key in seen: continue
         seen.add(key)
         failures.append((key, dict(layer='property: exporting to CSV and importing back %s' % ('raised' if code == 10 else 'changed a value or the number of rows'),
                                    key=key, csv_case=inits[i], csv_text=outs[i][1].get('text'), implementation_raised=outs[i][1].get('raised'))))
     distinct = len({common.digest(outs[i][1]['pre']) for i in idx})
+    # the dialect model of Csv.v against the csv module (a disagreement is a broken trusted stand-in: proof-level)
+    mcases = csv_model_cases(tier, rng, [outs[i][1]['text'] for i in idx if outs[i][1].get('text') is not None]) if only is None else []
+    mbad, merr = common.run_shards(CSVM_HEADER, mcases, 'chk_csvmodel', 'c17csvm', shard=max(1, len(mcases) // 16 + 1)) if mcases else ({}, [])
+    errors = errors + merr + ['csv dialect model differs from the csv module on case %d (code %d): %s' % (k, c, mcases[k][:300]) for k, c in sorted(mbad.items())[:3]]
     return dict(failures=failures, errors=errors,
                 coverage=dict(csv_round_trips=len(terms), csv_distinct_tables=distinct, csv_out_of_domain=skipped,
+                              csv_model_validation_cases=len(mcases), csv_model_disagreements=len(mbad),
                               csv_rule='tables of 0-5 row elements (repeats 1-3), 0-5 cell elements (repeats 1-3, styled or not) with values among None, integers, booleans, '
-                                       'short ASCII words and the empty string; to_csv() then import_from_csv(StringIO); cases where csv.Sniffer (called independently) does not find the comma dialect are out of the domain'))
+                                       'short ASCII words, the empty string, strings holding a comma, quotes, a line feed, U+2028, U+0085, a semicolon, a non-ASCII letter; to_csv() then import_from_csv(StringIO); cases where csv.Sniffer (called independently) does not find the comma dialect are out of the domain'))
 
 
 if __name__ == '__main__':
